@@ -29,6 +29,8 @@ type ProvCfg struct {
 	Sign          vkit.SignKeySpec  `json:"sign"`
 	ExtraPub      *vkit.PubKeySpec  `json:"extra_pub,omitempty"` // second published signing key (rotation)
 	Method        string            `json:"method"`              // GET | POST
+	// Mount: how the end-session endpoint is served for the request under test ("" = the router above; see mount_test.go)
+	Mount string `json:"mount,omitempty"`
 }
 
 // Hint describes the id_token_hint symbolically; run resolves it (issuer, times, signatures, real flows).
@@ -544,6 +546,10 @@ func genCase(t *rapid.T) Case {
 	// drawn last so that the rest of the case does not depend on it
 	if rapid.Bool().Draw(t, "errstyled") {
 		c.ErrStyle = rapid.SampledFrom(vkit.ErrStyles).Draw(t, "errstyle")
+	}
+	// the way the application mounts the end-session endpoint of the provider
+	if rapid.IntRange(0, 9).Draw(t, "mounted") < 4 {
+		c.Prov.Mount = rapid.SampledFrom(mounts).Draw(t, "mount")
 	}
 	return c
 }
@@ -1300,6 +1306,21 @@ func run(c Case) (res *vkit.Result) {
 		res.Label("storage-withdrew-a-key")
 	}
 
+	// ---- the mounting that serves the request under test
+	reqSUT := sut
+	noIssuerCtx := issuerless(c.Prov.Mount)
+	if c.Prov.Mount != "" {
+		h := mountHandler(sut, c.Prov.Mount)
+		if h == nil {
+			res.Grey = true
+			res.Label("malformed-case")
+			return res
+		}
+		alt := *sut
+		alt.Handler = h
+		reqSUT = &alt
+	}
+
 	// ---- the hint and what the model knows about it
 	var hf hintFacts
 	hintStr := ""
@@ -1370,6 +1391,10 @@ func run(c Case) (res *vkit.Result) {
 			hf.status, hf.why = "invalid", "neighbour-key"
 		case !isPublished:
 			hf.status, hf.why = "invalid", "unpublished-key"
+		case h.Iss == "absent" && noIssuerCtx:
+			// this mounting gives the end-session code no issuer to expect (and the token endpoint, mounted the same way,
+			// would issue tokens without iss): whether a hint without any iss is "foreign" there is not in the statement
+			hf.status, hf.why = "grey", "no-iss-without-issuer-context"
 		case h.Iss != "right":
 			hf.status, hf.why = "invalid", "issuer:"+h.Iss
 		case h.KID != kid:
@@ -1406,7 +1431,7 @@ func run(c Case) (res *vkit.Result) {
 	if c.State != "" {
 		q.Set("state", c.State)
 	}
-	ag := vkit.NewAgent(sut)
+	ag := vkit.NewAgent(reqSUT)
 	ag.Host = c.Prov.Host
 	var r *vkit.Resp
 	if c.Prov.Method == "POST" {
@@ -1466,6 +1491,16 @@ func run(c Case) (res *vkit.Result) {
 			provenID = ""
 		}
 	}
+	// soundness does not depend on the mounting; completeness does: served without an issuer in the context the
+	// provider has nothing to compare iss with and may refuse every hint (it must still never honour a bad one)
+	ctxSuffix := ""
+	if noIssuerCtx && hf.present {
+		ctxSuffix = "@no-issuer-context"
+		if ex.mustAccept {
+			ex.mustAccept = false
+			ex.why += "+no-issuer-context"
+		}
+	}
 
 	// ---- the observation
 	var term []vkit.JEntry
@@ -1484,7 +1519,7 @@ func run(c Case) (res *vkit.Result) {
 		outcome = "redirect"
 		loc := r.Location()
 		if ex.mustReject {
-			res.Fail("C18:accepted:"+ex.why, "request must be rejected (%s) but was answered %d -> %q", ex.why, r.Status, loc)
+			res.Fail("C18:accepted:"+ex.why+ctxSuffix, "request must be rejected (%s; end_session mounted as %q) but was answered %d -> %q", ex.why, mountName(c.Prov), r.Status, loc)
 		}
 		stateProblem := false
 		for _, a := range ex.allowed {
@@ -1614,14 +1649,17 @@ func run(c Case) (res *vkit.Result) {
 		res.Label("rel:" + c.Relation + "/app:" + app + "/" + why0)
 	}
 	res.Label("hint:"+hintLabel, "hintclass:"+c.Hint.Class, "cid:"+cidRel, "rel:"+c.Relation, "expect:"+expectLabel, "why:"+why0, "outcome:"+outLabel,
-		"router:"+c.Prov.Router, fmt.Sprintf("extras:%v", c.Prov.Extras), "method:"+c.Prov.Method, "issuer:"+c.Prov.IssuerMode, "sign:"+c.Prov.Sign.Alg,
+		"router:"+c.Prov.Router, "mount:"+mountName(c.Prov), "mount:"+mountName(c.Prov)+"/"+expectLabel+"/"+outLabel, fmt.Sprintf("extras:%v", c.Prov.Extras), "method:"+c.Prov.Method, "issuer:"+c.Prov.IssuerMode, "sign:"+c.Prov.Sign.Alg,
 		"state:"+classOfState(c.State), expectLabel+"/"+outLabel)
 	if c.Prov.ExtraPub != nil {
 		res.Label("two-published-keys")
 	}
+	if noIssuerCtx && hf.present {
+		res.Label("no-issuer-context/hint:" + hf.status + ":" + strings.SplitN(hf.why, "+", 2)[0] + "/" + outLabel)
+	}
 	res.NonTrivial = hf.present || (c.ClientID != "" && c.URI != "")
-	res.Key = fmt.Sprintf("%s|x=%v|%s|%s|%s|%s|cid=%s|%s|%s|%s|st=%s|%s", c.Prov.Router+"/"+app, c.Prov.Extras, c.Prov.Method, c.Prov.IssuerMode, c.Prov.Sign.Alg, hintLabel, cidRel, c.Relation, why0, expectLabel, classOfState(c.State), outLabel)
-	res.Info = map[string]any{"hint": hintLabel, "expect": expectLabel, "why": ex.why, "status": r.Status, "location": r.Location(), "terminate": term, "proven_client": provenID}
+	res.Key = fmt.Sprintf("%s|x=%v|%s|%s|%s|%s|cid=%s|%s|%s|%s|st=%s|%s", c.Prov.Router+"/"+mountName(c.Prov)+"/"+app, c.Prov.Extras, c.Prov.Method, c.Prov.IssuerMode, c.Prov.Sign.Alg, hintLabel, cidRel, c.Relation, why0, expectLabel, classOfState(c.State), outLabel)
+	res.Info = map[string]any{"hint": hintLabel, "expect": expectLabel, "why": ex.why, "status": r.Status, "location": r.Location(), "terminate": term, "proven_client": provenID, "mount": mountName(c.Prov)}
 	return res
 }
 
@@ -1649,9 +1687,9 @@ func directAPI(res *vkit.Result, c Case, cls []*vkit.ClientSpec) {
 
 var prop = vkit.Prop[Case]{
 	ID: "C18",
-	Rule: "cases = provider (router x issuer static/per-host x request host x TerminateSessionFromRequest capability x default logout URI x signing key/alg x optional second published key x GET/POST) x two generated client registrations (application type web / native / user_agent, dev mode, 0-3 post-logout URIs from a grammar incl. queries/fragments/custom schemes/'*'-containing exact entries, 0-2 post-logout globs with or without opt-in, authorization-only globs, 0-2 loopback post-logout URIs (http/https x 127.0.0.1/localhost/[::1] x port), native clients also loopback and custom-scheme authorization redirects) x id_token_hint (absent, empty, issued by the provider through an implicit or code flow (also at another host), forged with the provider's key: unexpired / expired / signed by a rotated published key / azp-less / unknown azp; signed by an unpublished key; 7 tamperings; 7 wrong issuers; kid / alg / claim oddities (grey); garbage) x client_id (absent, azp, other client, unknown) x the earlier life of the process (40% of the cases: a neighbouring provider in the same process with its own storage / registrations / signing key published under the SAME kid and the same or an own issuer; 0-3 earlier events in generated order: ordinary logouts and implicit flows + logout at this provider (either host, hint signed by any published key) or at the neighbour, key changes of this provider's storage: rotation with the old key kept / withdrawn (new or same kid), withdrawal of the second published key; hints signed by the neighbour's key under this provider's kid or by a key the storage has withdrawn (also real ID tokens issued before the withdrawal) are must-reject: 'validly signed' = under a key the storage serves at the time of the request) x post_logout_redirect_uri (registered, other client's, 20 near-miss relations, loopback variants of a registered loopback URI (other/no port, other loopback host spelling, other scheme, all three; port variant of an authorization-only loopback redirect) which are must-not-redirect for every application type, glob hit/miss/literal, default, omitted) x arbitrary state; " +
+	Rule: "cases = provider (router x issuer static/per-host x request host x TerminateSessionFromRequest capability x default logout URI x signing key/alg x optional second published key x GET/POST) x mounting of the end-session endpoint for the request under test (60% the router itself; 40% built from the same provider object through the exported API: op.RegisterServer(op.NewLegacyServer(..)) / the handler function op.EndSession on the application's mux / the application's own handler of op.ParseEndSessionRequest + op.ValidateEndSessionRequest, each without any issuer middleware and with op.NewIssuerInterceptor(provider.IssuerFromRequest) (Handler / HandlerFunc / WithHTTPMiddleware) or op.ContextWithIssuer in front; soundness (bad signature / foreign issuer / contradicting client_id never honoured, redirect target, terminated session) is asserted identically on every mounting, completeness for presented hints only where the context carries an issuer; a hint without iss on a mounting without issuer context is grey) x two generated client registrations (application type web / native / user_agent, dev mode, 0-3 post-logout URIs from a grammar incl. queries/fragments/custom schemes/'*'-containing exact entries, 0-2 post-logout globs with or without opt-in, authorization-only globs, 0-2 loopback post-logout URIs (http/https x 127.0.0.1/localhost/[::1] x port), native clients also loopback and custom-scheme authorization redirects) x id_token_hint (absent, empty, issued by the provider through an implicit or code flow (also at another host), forged with the provider's key: unexpired / expired / signed by a rotated published key / azp-less / unknown azp; signed by an unpublished key; 7 tamperings; 7 wrong issuers; kid / alg / claim oddities (grey); garbage) x client_id (absent, azp, other client, unknown) x the earlier life of the process (40% of the cases: a neighbouring provider in the same process with its own storage / registrations / signing key published under the SAME kid and the same or an own issuer; 0-3 earlier events in generated order: ordinary logouts and implicit flows + logout at this provider (either host, hint signed by any published key) or at the neighbour, key changes of this provider's storage: rotation with the old key kept / withdrawn (new or same kid), withdrawal of the second published key; hints signed by the neighbour's key under this provider's kid or by a key the storage has withdrawn (also real ID tokens issued before the withdrawal) are must-reject: 'validly signed' = under a key the storage serves at the time of the request) x post_logout_redirect_uri (registered, other client's, 20 near-miss relations, loopback variants of a registered loopback URI (other/no port, other loopback host spelling, other scheme, all three; port variant of an authorization-only loopback redirect) which are must-not-redirect for every application type, glob hit/miss/literal, default, omitted) x arbitrary state; " +
 		"oracle = independent model of (hint validity, proven client, registration) -> must-accept(requested|default) / must-reject / default-or-reject, Location compared as a user agent reads it (same URI, existing query kept, exactly one state=<state>), journal of TerminateSession*; sane registrations only (absolute URIs, glob patterns with '*' only); " +
-		"non-trivial = a hint is presented, or client_id together with a post_logout_redirect_uri; distinct = (router, application type, capability, method, issuer mode, alg, hint class, client_id relation, URI relation, model reason, expectation, state class, outcome)",
+		"non-trivial = a hint is presented, or client_id together with a post_logout_redirect_uri; distinct = (router, mounting, application type, capability, method, issuer mode, alg, hint class, client_id relation, URI relation, model reason, expectation, state class, outcome)",
 	Gen: genCase,
 	Run: run,
 }
